@@ -38,10 +38,66 @@ def impl_method(tree, cls: str, name: str) -> ast.FunctionDef:
 
 
 def stmts(f) -> list:
-    """body without docstrings / bare string statements / local imports"""
-    return [s for s in f.body
+    """normalised body (py2v.norm_body: no docstrings / annotations / typing.cast / pass / logging statements; local names kept)
+    without local imports, and with single-use temporaries of call-free expressions inlined"""
+    body = [s for s in py2v.norm_body(f, rename_locals=False)
             if not (isinstance(s, ast.Expr) and isinstance(s.value, ast.Constant))
             and not isinstance(s, (ast.Import, ast.ImportFrom))]
+    # `if <name>: pass` is what remains of a branch that only logged: testing a plain name has no effect
+    body = [s for s in body if not (isinstance(s, ast.If) and isinstance(s.test, ast.Name)
+                                    and all(isinstance(x, ast.Pass) for x in list(s.body) + list(s.orelse)))]
+    return inline_temps(body)
+
+
+def _binds(node, name: str) -> int:
+    """number of places where `name` is (re)bound under node"""
+    n = 0
+    for x in ast.walk(node):
+        if isinstance(x, ast.Name) and x.id == name and isinstance(x.ctx, (ast.Store, ast.Del)):
+            n += 1
+    return n
+
+
+def inline_temps(body: list) -> list:
+    """`x = e` at the top level, e built only from names/constants/operators/conditionals (no call, no attribute, so nothing
+    that could observe or change state), x bound once and read exactly once afterwards: substitute e for x.  A readability
+    temporary such as `limit = 1 if n is None else n; df = self.limit(limit)` then matches like the one-liner."""
+    import copy
+    body = list(body)
+    changed = True
+    while changed:
+        changed = False
+        for i, st in enumerate(body):
+            if not (isinstance(st, ast.Assign) and len(st.targets) == 1 and isinstance(st.targets[0], ast.Name)):
+                continue
+            x = st.targets[0].id
+            if any(isinstance(n, (ast.Call, ast.Attribute, ast.Subscript, ast.NamedExpr, ast.Lambda, ast.Await, ast.Yield,
+                                  ast.ListComp, ast.SetComp, ast.DictComp, ast.GeneratorExp)) for n in ast.walk(st.value)):
+                continue
+            if sum(_binds(b, x) for b in body) != 1:
+                continue
+            free = {n.id for n in ast.walk(st.value) if isinstance(n, ast.Name)}
+            rest = body[i + 1:]
+            reads = [n for b in rest for n in ast.walk(b) if isinstance(n, ast.Name) and n.id == x and isinstance(n.ctx, ast.Load)]
+            if len(reads) != 1:
+                continue
+            # the single read must be in the very next statement, outside any loop/closure, and nothing e mentions is rebound there
+            nxt = rest[0]
+            if reads[0] not in list(ast.walk(nxt)) or isinstance(nxt, (ast.For, ast.While, ast.FunctionDef, ast.With, ast.Try)):
+                continue
+            if any(_binds(nxt, v) for v in free):
+                continue
+
+            class Sub(ast.NodeTransformer):
+                def visit_Name(self, node):
+                    if node.id == x and isinstance(node.ctx, ast.Load):
+                        return copy.deepcopy(st.value)
+                    return node
+            body[i + 1] = ast.fix_missing_locations(Sub().visit(nxt))
+            del body[i]
+            changed = True
+            break
+    return body
 
 
 def param_defaults(f: ast.FunctionDef) -> dict:
@@ -148,19 +204,23 @@ def head_facts(tree, src):
     if len(body) != 4:
         raise Untranslatable(f"head: expected 4 statements, found {len(body)}")
     s0, s1, s2, s3 = body
-    # df = self.limit(<E>)
-    if not (isinstance(s0, ast.Assign) and dotted(s0.targets[0]) == "df" and is_call(s0.value, "self.limit", 1, [])):
+    # X = self.limit(<E>)
+    if not (isinstance(s0, ast.Assign) and isinstance(s0.targets[0], ast.Name) and is_call(s0.value, "self.limit", 1, [])):
         raise Untranslatable("head: `df = self.limit(...)` not found")
+    xv = s0.targets[0].id
     tr = Tr11(types={"n": "optZ"}, env={}, calls={})
     arg, targ = tr.e(s0.value.args[0])
     if targ != "Z":
         raise Untranslatable(f"head: limit argument has type {targ}")
-    # collected = df.collect()
-    if not (isinstance(s1, ast.Assign) and dotted(s1.targets[0]) == "collected" and is_call(s1.value, "df.collect", 0, [])):
+    # Y = X.collect()
+    if not (isinstance(s1, ast.Assign) and isinstance(s1.targets[0], ast.Name) and is_call(s1.value, xv + ".collect", 0, [])):
         raise Untranslatable("head: `collected = df.collect()` not found")
-    # if <test over n>: return seq_get(collected, K)
+    yv = s1.targets[0].id
+    if len({xv, yv, "n", "self"}) != 4:
+        raise Untranslatable("head: local names shadow each other")
+    # if <test over n>: return seq_get(Y, K)
     if not (isinstance(s2, ast.If) and not s2.orelse and len(s2.body) == 1 and isinstance(s2.body[0], ast.Return)
-            and is_call(s2.body[0].value, "seq_get", 2, []) and dotted(s2.body[0].value.args[0]) == "collected"):
+            and is_call(s2.body[0].value, "seq_get", 2, []) and dotted(s2.body[0].value.args[0]) == yv):
         raise Untranslatable("head: `if ...: return seq_get(collected, k)` not found")
     test, tt = Tr11(types={"n": "optZ"}, env={}, calls={}).e(s2.test)
     if tt != "bool":
@@ -168,9 +228,9 @@ def head_facts(tree, src):
     idx = const_of(s2.body[0].value.args[1], "head: seq_get index")
     if not isinstance(idx, int) or isinstance(idx, bool) or idx < 0:
         raise Untranslatable("head: seq_get index is not a non-negative int")
-    if not (isinstance(s3, ast.Return) and dotted(s3.value) == "collected"):
+    if not (isinstance(s3, ast.Return) and dotted(s3.value) == yv):
         raise Untranslatable("head: `return collected` not found")
-    return {"arg": arg, "scalar": test, "index": idx, "hash": py2v.src_hash(f, src)}
+    return {"arg": arg, "scalar": test, "index": idx, "hash": py2v.norm_hash(f)}
 
 
 def opt_int_arg(call: ast.Call, what: str):
@@ -193,7 +253,7 @@ def first_facts(tree, src):
     if not (len(body) == 1 and isinstance(body[0], ast.Return) and isinstance(body[0].value, ast.Call)
             and dotted(body[0].value.func) == "self.head"):
         raise Untranslatable("first: body is not `return self.head(...)`")
-    return {"arg": opt_int_arg(body[0].value, "first"), "hash": py2v.src_hash(f, src)}
+    return {"arg": opt_int_arg(body[0].value, "first"), "hash": py2v.norm_hash(f)}
 
 
 # ---- count / isEmpty / show: straight-line programs over a DataFrame variable -----------------------------
@@ -261,7 +321,7 @@ def count_facts(tree, src):
         raise Untranslatable("count: indices are not non-negative ints")
     star = state[2].replace(" ", "").lower() == "count(*)"
     return {"wraps": state[0], "append": state[1], "star": star, "text": state[2], "pick": (i, j),
-            "hash": py2v.src_hash(f, src)}
+            "hash": py2v.norm_hash(f)}
 
 
 def lit_item(node) -> str:
@@ -295,7 +355,7 @@ def isempty_facts(tree, src):
             and is_call(v.func.value, "self.select", 1, [])):
         raise Untranslatable("isEmpty: `self.select(<item>).head(...)` not found")
     return {"item": lit_item(v.func.value.args[0]), "head_arg": opt_int_arg(v, "isEmpty"), "negates": negates,
-            "hash": py2v.src_hash(f, src)}
+            "hash": py2v.norm_hash(f)}
 
 
 def show_facts(tree, src):
@@ -322,6 +382,7 @@ def show_facts(tree, src):
             continue
         rest.append(s)
     used = names_used(rest)
+    truncate_only_logs = truncate_only_logs or "truncate" not in used
     if "truncate" in used or "vertical" in used:
         raise Untranslatable("show: truncate/vertical influence the printed table")
     env = {"self": False}
@@ -333,40 +394,46 @@ def show_facts(tree, src):
     s_res, tail = rest[i], rest[i + 1:]
     # result = <recv>.limit(<E>).collect()
     v = s_res.value if isinstance(s_res, ast.Assign) else None
-    ok = v is not None and dotted(s_res.targets[0]) == "result" and isinstance(v, ast.Call) and not v.args and not v.keywords \
+    ok = v is not None and isinstance(s_res.targets[0], ast.Name) and isinstance(v, ast.Call) and not v.args and not v.keywords \
         and isinstance(v.func, ast.Attribute) and v.func.attr == "collect" and isinstance(v.func.value, ast.Call) \
         and isinstance(v.func.value.func, ast.Attribute) and v.func.value.func.attr == "limit" \
         and dotted(v.func.value.func.value) in env and len(v.func.value.args) == 1 and not v.func.value.keywords
     if not ok:
         raise Untranslatable("show: `result = <df>.limit(<n>).collect()` not found")
     wraps = env[dotted(v.func.value.func.value)]
+    rv = s_res.targets[0].id            # the collected rows; the table variable is whatever PrettyTable() is bound to
     arg, targ = Tr11(types={"n": "Z"}, env={}, calls={}).e(v.func.value.args[0])
     if targ != "Z":
         raise Untranslatable("show: limit argument is not an int")
+    tabs = [st.targets[0].id for st in tail if isinstance(st, ast.Assign) and isinstance(st.targets[0], ast.Name)
+            and is_call(st.value, "PrettyTable", 0, [])]
+    if len(tabs) != 1 or tabs[0] in (rv, "self", "n") or rv in ("self", "n"):
+        raise Untranslatable("show: exactly one `<table> = PrettyTable()` expected")
+    tv = tabs[0]
 
     def is_table(st):
-        return isinstance(st, ast.Assign) and dotted(st.targets[0]) == "table" and is_call(st.value, "PrettyTable", 0, [])
+        return isinstance(st, ast.Assign) and dotted(st.targets[0]) == tv and is_call(st.value, "PrettyTable", 0, [])
 
     def is_rows(st):
-        return isinstance(st, ast.For) and not st.orelse and dotted(st.iter) == "result" and isinstance(st.target, ast.Name) \
-            and len(st.body) == 1 and isinstance(st.body[0], ast.Expr) and is_call(st.body[0].value, "table.add_row", 1, []) \
+        return isinstance(st, ast.For) and not st.orelse and dotted(st.iter) == rv and isinstance(st.target, ast.Name) \
+            and len(st.body) == 1 and isinstance(st.body[0], ast.Expr) and is_call(st.body[0].value, tv + ".add_row", 1, []) \
             and is_call(st.body[0].value.args[0], "list", 1, []) and dotted(st.body[0].value.args[0].args[0]) == st.target.id
 
     def is_print(st):
-        return isinstance(st, ast.Expr) and is_call(st.value, "print", 1, []) and dotted(st.value.args[0]) == "table"
+        return isinstance(st, ast.Expr) and is_call(st.value, "print", 1, []) and dotted(st.value.args[0]) == tv
 
     if len(tail) == 3:
         # table = PrettyTable(); if row := seq_get(result, 0): <header from that row>; <rows>; print(table)
         s_tab, s_if, s_print = tail
         t = s_if.test if isinstance(s_if, ast.If) else None
         ok = is_table(s_tab) and is_print(s_print) and t is not None and not s_if.orelse and isinstance(t, ast.NamedExpr) \
-            and t.target.id == "row" and is_call(t.value, "seq_get", 2, []) and dotted(t.value.args[0]) == "result" \
+            and is_call(t.value, "seq_get", 2, []) and dotted(t.value.args[0]) == rv \
             and const_of(t.value.args[1], "show: seq_get index") == 0 and len(s_if.body) == 2
         if not ok:
             raise Untranslatable("show: `table = PrettyTable(); if row := seq_get(result, 0): ...; print(table)` not found")
         s_names, s_for = s_if.body
-        if not (isinstance(s_names, ast.Assign) and dotted(s_names.targets[0]) == "table.field_names"
-                and dotted(s_names.value) == "row._unique_field_names"):
+        if not (isinstance(s_names, ast.Assign) and dotted(s_names.targets[0]) == tv + ".field_names"
+                and dotted(s_names.value) == t.target.id + "._unique_field_names"):
             raise Untranslatable("show: header is not row._unique_field_names")
         if not is_rows(s_for):
             raise Untranslatable("show: rows are not added as `for row in result: table.add_row(list(row))`")
@@ -379,7 +446,7 @@ def show_facts(tree, src):
             s_hdr, s_tab = s_tab, s_hdr
         h = s_hdr.value if isinstance(s_hdr, ast.Assign) and isinstance(s_hdr.targets[0], ast.Name) else None
         ok = h is not None and isinstance(h, ast.BoolOp) and isinstance(h.op, ast.Or) and len(h.values) == 2 \
-            and is_call(h.values[0], "seq_get", 2, []) and dotted(h.values[0].args[0]) == "result" \
+            and is_call(h.values[0], "seq_get", 2, []) and dotted(h.values[0].args[0]) == rv \
             and const_of(h.values[0].args[1], "show: seq_get index") == 0 \
             and is_call(h.values[1], "_create_row", 2, []) and dotted(h.values[1].args[0]) == "self.columns"
         if not ok:
@@ -390,7 +457,7 @@ def show_facts(tree, src):
         if not ok:
             raise Untranslatable("show: placeholder row is not `[x] * len(self.columns)`")
         hv = s_hdr.targets[0].id
-        if not (is_table(s_tab) and isinstance(s_names, ast.Assign) and dotted(s_names.targets[0]) == "table.field_names"
+        if not (is_table(s_tab) and isinstance(s_names, ast.Assign) and dotted(s_names.targets[0]) == tv + ".field_names"
                 and dotted(s_names.value) == hv + "._unique_field_names"):
             raise Untranslatable("show: header is not <header>._unique_field_names")
         if not is_rows(s_for):
@@ -401,7 +468,7 @@ def show_facts(tree, src):
     else:
         raise Untranslatable(f"show: {len(tail)} statements after `result = ...`")
     return {"default": n_default, "wraps": wraps, "arg": arg, "header_needs_row": header_needs_row,
-            "vertical_raises": vertical_raises, "truncate_only_logs": truncate_only_logs, "hash": py2v.src_hash(f, src)}
+            "vertical_raises": vertical_raises, "truncate_only_logs": truncate_only_logs, "hash": py2v.norm_hash(f)}
 
 
 # ---- Row._unique_field_names ---------------------------------------------------------------------------------
@@ -472,7 +539,7 @@ def rename_facts(tree, src):
         raise Untranslatable(f"_unique_field_names: appended value has type {ty}")
     if not (isinstance(s2, ast.Return) and dotted(s2.value) == acc):
         raise Untranslatable("_unique_field_names: does not return the accumulator")
-    return {"params": (acc, iv, fv), "term": term, "hash": py2v.src_hash(f, src)}
+    return {"params": (acc, iv, fv), "term": term, "hash": py2v.norm_hash(f)}
 
 
 # ---- statement paths of collect / toPandas / toArrow -------------------------------------------------------
@@ -538,12 +605,26 @@ def path_facts(df_tree, df_src, sess_tree, sess_src, ddf_tree, ddf_src, dsess_tr
     sf = impl_method(sess_tree, "_BaseSession", "_fetchdf")
     q_fetch = const_of(param_defaults(sf)["quote_identifiers"], "_fetchdf: quote_identifiers default")
     tosqls = [n for n in ast.walk(sf) if isinstance(n, ast.Call) and dotted(n.func) == "self._to_sql"]
-    if len(tosqls) != 2 or not all(len(n.args) == 1 and [k.arg for k in n.keywords] == ["quote_identifiers"]
-                                   and dotted(n.keywords[0].value) == "quote_identifiers" for n in tosqls):
+    if not tosqls or not all(len(n.args) == 1 and [k.arg for k in n.keywords] == ["quote_identifiers"]
+                             and dotted(n.keywords[0].value) == "quote_identifiers" for n in tosqls):
         raise Untranslatable("session._fetchdf: statements are not rendered by self._to_sql(x, quote_identifiers=quote_identifiers)")
+
+    def rendered(node):
+        """node is a self._to_sql(...) call, or a local bound exactly once in _fetchdf, to such a call"""
+        if node in tosqls:
+            return True
+        if isinstance(node, ast.Name):
+            binds = [st for st in ast.walk(sf) if isinstance(st, ast.Assign) and any(
+                isinstance(x, ast.Name) and x.id == node.id for tg in st.targets for x in ast.walk(tg))]
+            return _binds(sf, node.id) == 1 and len(binds) == 1 and len(binds[0].targets) == 1 \
+                and isinstance(binds[0].targets[0], ast.Name) and binds[0].value in tosqls
+        return False
     reads = [n for n in ast.walk(sf) if is_call(n, "read_sql_query")]
-    if len(reads) != 1 or not reads[0].args or reads[0].args[0] not in tosqls:
-        raise Untranslatable("session._fetchdf: read_sql_query(self._to_sql(last), conn) not found")
+    if len(reads) != 1 or len(reads[0].args) < 1 or not rendered(reads[0].args[0]):
+        raise Untranslatable("session._fetchdf: read_sql_query(<text rendered by self._to_sql>, conn) not found")
+    for ex_call in [n for n in ast.walk(sf) if is_call(n, "self._execute")]:
+        if len(ex_call.args) != 1 or not rendered(ex_call.args[0]):
+            raise Untranslatable("session._fetchdf: self._execute(<text rendered by self._to_sql>) expected")
     # toArrow: self._collect(skip_rows=True) ... self.session._last_result.arrow() / fetch_record_batch
     ta = impl_method(ddf_tree, "DuckDBDataFrame", "toArrow")
     b = stmts(ta)
@@ -581,7 +662,7 @@ def path_facts(df_tree, df_src, sess_tree, sess_src, ddf_tree, ddf_src, dsess_tr
     }
     return {"paths": paths, "arrow_exec_before_read": first_exec < first_read,
             "arrow_skip_rows": arrow_kwargs.get("skip_rows", skiprows_default),
-            "hash": py2v.src_hash(ta, ddf_src)}
+            "hash": py2v.norm_hash(ta)}
 
 
 # ---- receiver-write summary ------------------------------------------------------------------------------------
@@ -621,6 +702,42 @@ def self_writes(f: ast.FunctionDef) -> list:
             if a is not None:
                 out.append(a + "." + n.func.attr + "()")
     return sorted(set(out))
+
+
+def chain_cfg(repo: str):
+    """The part of C01's facts the C11 theorems are parametric in (Model.Chain.cfg): Operation ranks, the wrap rule and
+    INIT step of the `operation` decorator, the decorator class of select/where/orderBy/limit/distinct, orderBy's append
+    flag, limit's merge.  Produced by translate/c01_facts.py's own fail-closed readers; C01's other facts (group
+    decorator, order-key flags, column order methods, decorator table) are not needed here and not read."""
+    from translate import c01_facts as c
+    ops_tree, ops_src = py2v.load(os.path.join(repo, "sqlframe/base/operations.py"))
+    df_tree, df_src = py2v.load(os.path.join(repo, "sqlframe/base/dataframe.py"))
+    vals = c.enum_values(ops_tree)
+    w = c.wrapper_facts(ops_tree, ops_src, "operation", "self")
+    decos = c.method_decorators(df_tree, "BaseDataFrame", "operation")
+    oa = c.order_append(df_tree)
+    lm, lm_hash = c.limit_merge(df_tree, df_src)
+    for n, m in c.NAMES.items():
+        if decos.get(m) is None:
+            raise Untranslatable(f"method {m} has no @operation decorator")
+    L = ["(* GENERATED from /repo on every run by translate/c11_facts.chain_cfg (readers of translate/c01_facts.py) *)",
+         "From SF Require Import Model.Chain.", "Open Scope Z_scope.",
+         "Definition rank (k : opk) : Z := match k with " + " | ".join(f"{k} => ({vals[k]})" for k in c.OPK) + " end.",
+         "Definition opk_ltb a b := Z.ltb (rank a) (rank b).", "Definition opk_leb a b := Z.leb (rank a) (rank b).",
+         "Definition opk_gtb a b := Z.gtb (rank a) (rank b).", "Definition opk_geb a b := Z.geb (rank a) (rank b).",
+         f"Definition wrap_needed_df (last_op new_op : opk) : bool := {w['test']}.",
+         f"Definition new_kind_df (op last_op : opk) : opk := {w['new_kind']}.",
+         f"Definition init_wraps_df : bool := {'true' if w['init_wraps'] else 'false'}.",
+         "Definition kind_of (n : opname) : opk := match n with " + " | ".join(f"{n} => {decos[m]}" for n, m in c.NAMES.items()) + " end.",
+         f"Definition order_append : bool := {'true' if oa else 'false'}.",
+         f"Definition limit_merge (num m : Z) : Z := {lm}.",
+         "Definition gen_cfg : cfg := mkCfg wrap_needed_df kind_of init_wraps_df order_append limit_merge."]
+    facts = [{"name": "rank", "from": "operations.py: class Operation", "value": vals},
+             {"name": "wrap_needed_df", "from": "operations.py: operation.wrapper", "hash": w["hash"], "text": w["test"]},
+             {"name": "new_kind_df", "text": w["new_kind"]}, {"name": "init_wraps_df", "value": w["init_wraps"]},
+             {"name": "kind_of", "from": "dataframe.py decorators", "value": {m: decos[m] for m in c.NAMES.values()}},
+             {"name": "order_append", "value": oa}, {"name": "limit_merge", "hash": lm_hash, "text": lm}]
+    return "\n".join(L) + "\n", facts
 
 
 def coq_bool(b) -> str:
